@@ -2,6 +2,7 @@ import Asts.Proofs.C02_Target
 import Asts.Proofs.C02_Round
 import Asts.Proofs.C02_Idem
 import Asts.Proofs.C02_Policies
+import Asts.Proofs.C02_BBound
 
 /-! # C02 — reconciliation converges to exactly the desired pods and then goes quiet
 
@@ -238,26 +239,28 @@ theorem C02_round (h : Hashing) (j : SyncIn) (hs : NSC h j) (hp : Pol hs.norm) :
 /-- (c) Parallel, spelled out: every desired ordinal that was vacant or held a Failed/Succeeded pod gets a create, every pod
     outside the desired set and every Failed/Succeeded pod in range is deleted, and a live pod in range is deleted only
     when it is the one pod the update walk takes down (`delHits_iff`, `create_mem_iff` for the exact statements). -/
-theorem C02_round_parallel_calls (h : Hashing) (j : SyncIn) (hs : NSC h j) (hpar : j.view.parallel = true) :
+theorem C02_round_parallel_calls (h : Hashing) (j : SyncIn) (hs : NSC h j) (hpar : j.view.parallel = true)
+    (hpart : PartOk j.view) :
     hs.norm.recon.1.acts = actsOf j.view hs.norm.curRev.name hs.norm.updRev.name (bOf j) (EOf j) j.pods ∧
     ActFacts j.view hs.norm.curRev.name hs.norm.updRev.name (bOf j) (EOf j) j.pods
       (actsOf j.view hs.norm.curRev.name hs.norm.updRev.name (bOf j) (EOf j) j.pods) :=
-  ⟨par_recon_acts hs hpar, par_facts hs⟩
+  ⟨par_recon_acts hs hpar, par_facts hs hpart⟩
 
 /-- (c) OrderedReady, spelled out: the reconcile issues `monoActsOf` — identity updates up to the first desired ordinal
     that needs a pod, which it fills (after deleting a Failed/Succeeded occupant) and stops; if none needs one, it deletes
     the highest pod outside the desired set; if there is none either, the update walk takes one outdated pod down. -/
-theorem C02_round_ordered_calls (h : Hashing) (j : SyncIn) (hk : MonoK h j) :
+theorem C02_round_ordered_calls (h : Hashing) (j : SyncIn) (hk : MonoK0 h j) :
     hk.1.norm.recon.2 = .ok ∧
     hk.1.norm.recon.1.acts = monoActsOf j.view hk.1.norm.curRev.name hk.1.norm.updRev.name (bOf j) (EOf j) j.pods :=
   recon_mono hk
 
 /-- **(d) the measure**: it never goes up, and it goes down whenever an `Event` happens — which both policies guarantee
     while the pods still need work (`PolicyClass.progress`). -/
-theorem C02_measure_step (h : Hashing) (j : SyncIn) (hs : NSC h j) (hp : Pol hs.norm) :
+theorem C02_measure_step (h : Hashing) (j : SyncIn) (hs : NSC h j) (hp : Pol hs.norm) (hpart : PartOk j.view)
+    (hf : ActFacts j.view hs.norm.curRev.name hs.norm.updRev.name (bOf j) (EOf j) j.pods hs.norm.recon.1.acts) :
     muPods (nextW h j) ≤ muPods j ∧
     (Event (bOf j) (EOf j) j.pods hs.norm.recon.1.acts → muPods (nextW h j) < muPods j) :=
-  mu_stepC hs hp
+  mu_stepC hs hp hpart hf
 
 /-- **stage 2**: when the pods need no work, two more rounds end in `Final`: one writes the status if it differs (possibly
     completing the rolling update), one deletes the history this left unused. -/
@@ -269,16 +272,15 @@ theorem C02_pods_done_final (h : Hashing) (j : SyncIn) (hs : NSC h j) (hz : muPo
     revisions beyond the model's id scheme; any history limit.
 
     `_partial`: the full statement wanted is `wfWorld h i → (hashing premise) → ∃ n ≤ roundBound i, Final h (roundsN h n i)`.
-    Missing: (i) the normalising first round(s) from an arbitrary `wfWorld` world to a normal one (adoption / release of pods,
-    adoption of revisions, creation or renumbering of the update revision — the last needs a premise on the hashing, see
-    `degenerate_hashing_never_converges`; pods owned by others and non-member pods, which are inert); (ii) the legacy
-    boundary mode `strategy = RollingUpdate` with no `rollingUpdate` block. Both are covered by the `world` engine runs. -/
+    This theorem covers the worlds that are already normal, without any premise on the hashing, on the names of stored
+    revisions or on the set's name. The normalising first rounds (adoption of pods and revisions, creation or renumbering
+    of the update revision) are Part 5 (`C02_converges_partial`), the legacy boundary mode is Part 4. -/
 theorem C02_rounds_parallel_partial (h : Hashing) (i : SyncIn) (hb : normB h i = true) :
     ∃ n ≤ muPods (settle i) + 3, Final h (roundsN h n i) :=
   converge_parallel hb
 
 /-- **Convergence, OrderedReady policy, normal worlds** (one ordinal per round; same measure, same bound).
-    `_partial`: as for Parallel — the normalising first rounds and the legacy boundary mode are missing. -/
+    `_partial`: as for Parallel — normal worlds only; see Parts 4 and 5 for the rest. -/
 theorem C02_rounds_ordered_partial (h : Hashing) (i : SyncIn) (hb : normOB h i = true) :
     ∃ n ≤ muPods (settle i) + 3, Final h (roundsN h n i) :=
   converge_ordered hb
@@ -326,5 +328,210 @@ example : normB exH (exNormal true) = true := by decide +kernel
 example : normOB exH (exNormal false) = true := by decide +kernel
 example : muPods (settle (exNormal true)) = 11 := by decide +kernel
 example : Final exH (exNormal true) = False := by simp only [eq_iff_iff, iff_false]; decide +kernel
+
+/-! ## Part 4 — the legacy boundary mode (strategy RollingUpdate, no `rollingUpdate` block)
+
+Without the block the boundary between the revisions of NEW pods is `status.currentReplicas` (`newPodRev`: below it a new pod
+gets the current revision, at or above it the update revision), and the update walk runs over every ordinal (partition 0).
+A replacement pod may therefore come up at the OLD revision and be replaced again; the measure of Part 3 is not monotone here.
+
+`muL` (legacy measure, `Proofs/C02_Defs.lean`): per desired ordinal — a vacancy weighs 1 when the pod created there will be at
+the update revision AND every other desired ordinal holds a live pod (`onlyNeedy`), else 4; a Failed/Succeeded pod 5; a live pod
+3 if outdated, +1 for a missing identity; plus 2 per pod outside the desired set. The key fact (`walk_bound_list` +
+counter tracking `recon_par_cur_le` / `recon_mono_cur_le`): when the update walk deletes the pod at ordinal `t` and the current
+revision differs from the update revision, the status it leaves has `currentReplicas ≤ t` — every pod at an ordinal above `t`
+is at the update revision and was not counted — so the pod created at `t` in the next round is at the update revision
+(`next_good_rev`) and the vacancy the walk leaves weighs 1, not 4. `LPol` is the interface a policy satisfies in this mode
+(walk-free calls `A` obeying `ActFacts`, plus at most one walk deletion with the bound), `LEvent` the progress event,
+`muL_step` the policy-independent descent; `lpar_pol`/`lpar_progress`/`lpar_next` and `lmono_*` instantiate it.
+The measure was checked before the proof on the ≈950 legacy worlds of the `world` engine and on an exhaustive enumeration
+(4 ordinals, 69 678 worlds): strictly decreasing until 0, `Final` two rounds later. -/
+
+/-- normal in the legacy boundary mode (either policy), decidable reading -/
+abbrev normLB (h : Hashing) (i : SyncIn) : Bool := Asts.C02p.normLB h i
+
+/-- **the walk's bound**: the counted pods at the current revision, minus the walk's own decrement, fit below the walk's
+    target (ordinals `≥ 0`, strictly ascending; partition 0) -/
+theorem C02_legacy_walk_bound (v : SetView) (cur upd : String) (R : List (Int × Pod)) (hpart : partOf v = 0)
+    (hs : (R.map (·.1)).Pairwise (· < ·)) (h0 : ∀ x ∈ R, 0 ≤ x.1) {t : Int} {q : Pod}
+    (ht : walkTarget v upd R = some (t, q)) (hne : cur ≠ upd) :
+    Asts.L1c.cnt (Asts.L1c.liveAt cur) (R.map (·.2)) - tgtDelta cur (some (t, q)) ≤ t :=
+  walk_bound_list v cur upd R hpart hs h0 ht hne
+
+/-- **the legacy measure**: it never goes up, and it goes down whenever a legacy event happens (a create, a delete of a
+    listed pod, a useful identity update, or the walk's deletion) -/
+theorem C02_legacy_measure_step (h : Hashing) (j : SyncIn) (hs : NSC h j) (A : List Action) (tg : Option (Int × Pod))
+    (hl : LPol hs A tg) : muL (nextW h j) ≤ muL j ∧ (LEvent j A tg → muL (nextW h j) < muL j) :=
+  muL_step hl
+
+/-- the legacy measure dominates the measure of Part 3: when it is 0 the pods need no work (stage 2 of Part 3 applies) -/
+theorem C02_legacy_measure_dominates (h : Hashing) (j : SyncIn) (hs : NSC h j) : muPods j ≤ muL j := muPods_le_muL hs
+
+/-- **Convergence in the legacy boundary mode, both policies, normal worlds.**
+    `_partial`: normal worlds only (as `C02_rounds_parallel_partial`); the normalising first rounds are Part 5. -/
+theorem C02_rounds_legacy_partial (h : Hashing) (i : SyncIn) (hb : normLB h i = true) :
+    ∃ n ≤ muL (settle i) + 3, Final h (roundsN h n i) :=
+  converge_legacy hb
+
+theorem C02_rounds_legacy_settled_partial (h : Hashing) (i : SyncIn) (hb : normLB h (settle i) = true) :
+    ∃ n ≤ muL (settle i) + 3, Final h (roundsN h n i) :=
+  converge_legacy_settled hb
+
+/-- within the monitor's bound -/
+theorem C02_legacy_bound_within_monitor (i : SyncIn) : muL (settle i) + 3 ≤ roundBound i := muL_le_roundBound i
+
+/-- the same outdated world as `exNormal`, without the `rollingUpdate` block, `status.currentRevision = web-a` with three
+    replicas counted: replacements below the boundary come up at the OLD revision first -/
+def exLegacy (par : Bool) : SyncIn :=
+  { exNormal par with
+    view := { (exNormal par).view with ru := none, stCurrentReplicas := 3 },
+    stored := { (exNormal par).stored with currentRev := "web-a", current := 3 } }
+
+example : normLB exH (exLegacy true) = true := by decide +kernel
+example : normLB exH (exLegacy false) = true := by decide +kernel
+example : Final exH (exLegacy true) = False := by simp only [eq_iff_iff, iff_false]; decide +kernel
+
+/-! ## Part 5 — the normalising first rounds, and the general theorem
+
+A world inside `preNB` (`Proofs/C02_BDefs.lean`) differs from a normal one in that
+* pod objects may be **orphans** (member of the set by name, selector matches, controlled by nobody);
+* listed revisions may be orphans (adopted in the first sync, marker-carrying ones label-synced first);
+* the **update revision may not exist yet** (created on the first free probe name, after walking past names held by
+  revisions recording something else — the collision count moves and is persisted with the status), or exist as an older
+  revision (renumbered to `nextRevision`);
+* any update strategy, both policies, the legacy boundary mode included.
+
+The argument: the first sync does to the world exactly what the sync of the **prepared world** `prepW h j` does — the same
+world with the revision stages already run (`prepStore`, `prepCC`) and every pod owned — up to who owns the pods
+(`prep_sim`: `ownS (applySync j (syncF j)) = applySync (prepW j) (syncF (prepW j))`). The prepared world is normal
+(`prepW_norm`), so Parts 3/4 apply to it. Owners: the claim stage adopts every orphan (`claim_nil`, `claimLog_owns`); the
+Update call of `UpdateStatefulPod` writes back the cached copy, so a pod adopted AND identity-repaired in the same sync is an
+orphan again afterwards (`applyActs`), but then its identity is in order (`applyActs_ownP`), identity updates only go to pods
+lacking identity (`par_update_src`, `mono_update_src`), hence the next sync adopts it for good (`applyActs_noOrphan`): from
+the second round on no pod is an orphan (`mid_rounds`), and the rounds of the world ARE the rounds of the prepared world. The
+normalising work costs no extra round: the bound is the measure of the prepared world + 3.
+
+The premises on the hashing (`hashOkB`, `labelsOkB`) are explicit; the two theorems below show what they exclude is real. -/
+
+/-- the world with the revision work done and every pod owned -/
+abbrev prepW (h : Hashing) (j : SyncIn) : SyncIn := Asts.C02p.prepW h j
+/-- the class of the general theorem, decidable reading -/
+abbrev preNB (h : Hashing) (i : SyncIn) : Bool := Asts.C02p.preNB h i
+/-- what `preNB` asks beyond `wfWorld` -/
+abbrev extraB (h : Hashing) (i : SyncIn) : Bool := Asts.C02p.extraB h i
+
+/-- **the prepared world is normal** (whatever adoption, creation or renumbering the first sync has to do) -/
+theorem C02_prepared_normal (h : Hashing) (i : SyncIn) (hb : preCB h i = true) (hroom : roomB i = true) :
+    NSC h (prepW h (settle i)) :=
+  prep_nsc (preC_settle hb).1 (preC_settle hb).2 hroom
+
+/-- **the first sync, seen with the owners forgotten, is the sync of the prepared world** -/
+theorem C02_first_sync_simulation (h : Hashing) (i : SyncIn) (hb : preCB h i = true) (hroom : roomB i = true)
+    (hok : (C02_prepared_normal h i hb hroom).norm.recon.2 = .ok) :
+    ownS (applySync (settle i) [] (syncF h (settle i) [])) =
+      applySync (prepW h (settle i)) [] (syncF h (prepW h (settle i)) []) ∧
+    (syncF h (settle i) []).outcome = .ok := by
+  obtain ⟨hp, hr⟩ := preC_settle hb
+  obtain ⟨G, upd, cc, hpick, hcc⟩ := pick_of_prem hp.names hr
+  obtain ⟨h1, h2, _⟩ := prep_sim hp hpick hcc (C02_prepared_normal h i hb hroom).norm hok
+  exact ⟨h1, h2⟩
+
+/-- **general convergence**: from any world inside `preNB`, within the measure of the prepared world + 3 rounds -/
+theorem C02_converges_preNB (h : Hashing) (i : SyncIn) (hb : preNB h i = true) :
+    ∃ n ≤ (if legacyB i.view then muL (prepW h (settle i)) else muPods (prepW h (settle i))) + 3,
+      Final h (roundsN h n i) :=
+  converge_general hb
+
+/-- **C02, convergence**: a world inside the premises of the property (`wfWorld`) and inside `extraB` reaches `Final` —
+    the promised state (Part 1: `C02_final_is_target`), after which every reconcile writes nothing (`C02_quiescent`,
+    `C02_quiet_forever`) — within the number of rounds the monitor `C02converges` allows.
+
+    `_partial`: the statement wanted is for every world inside `wfWorld` under a premise on the hashing alone. `extraB` adds,
+    beyond the hashing premises `hashOkB` (a visible revision records the template, or the probe walk ends on a free name
+    having passed only revisions that record something else, within `|store| + 8` probes, and when the collision count
+    moves the stored status does not already name the new revision) and `labelsOkB` (no unparsable hash label next to a
+    mismatching parsable one among the revisions that record the template):
+    (i) every pod object is a member of the set — **missing case: pod objects that merely carry the labels (non-members,
+    released in the first sync) or are controlled by somebody else; they are inert, but `Final` as defined here speaks about
+    the whole pod list** (1 % of the generated `wfWorld` worlds);
+    (ii) `spec.replicas` is set, storage of every pod matches (`stOk`; the model never repairs it), one pod object per
+    ordinal — outside these the model does not reach `Final` at all;
+    (iii) sizes within the model's id scheme (`|pods|`, replicas, room `≤ 10^6`; `replicas + |slots| ≤ MaxInt32`), distinct
+    names of stored revisions, no colon in the set's name (log entries are colon-separated). -/
+theorem C02_converges_partial (h : Hashing) (i : SyncIn) (hw : wfWorld h i = true) (hx : extraB h i = true) :
+    ∃ n ≤ roundBound i, Final h (roundsN h n i) := by
+  obtain ⟨n, hn, hf⟩ := converge_general (preNB_of_wf hw hx)
+  exact ⟨n, le_trans hn (general_le_roundBound h i), hf⟩
+
+/-! ### non-vacuity and the premises on the hashing -/
+
+private def oPod (k : Nat) (o : Int) (own : Owner) (ph : Phase) (rd : Bool) (rev : String) (idOk : Bool) : CPod :=
+  { name := canonicalName "web" o, owner := own, selMatch := true, member := true,
+    pod := { id := k, ord := o, phase := ph, ready := rd, terminating := false, rev := rev, idOk := idOk, stOk := true } }
+
+/-- replicas 3 (desired 0,1,2), OrderedReady, legacy boundary mode; template "T" has no revision yet and the first two
+    probe names are taken by revisions recording something else (one of them an orphan carrying only the marker); the pod
+    at 0 is an orphan without identity, the pod at 1 an orphan, ordinal 2 is vacant, an extra orphan sits at 5 -/
+def exPre : SyncIn :=
+  { exWorld with
+    view := { replicas := some 3, slots := [], parallel := false, strat := .rolling, ru := none, deleting := false,
+              generation := 5, stCurrentReplicas := 2 },
+    stored := { replicas := 2, ready := 2, current := 2, updated := 0, currentRev := "T-1", updateRev := "T-1", observedGen := 4 },
+    template := "T", historyLimit := some 0,
+    store := [ { name := "T-0", number := 1, ctime := 0, data := "old0", hashNum := none, owner := .none, selMatch := false, marker := true },
+               { name := "T-1", number := 2, ctime := 0, data := "old1", hashNum := none, owner := .self, selMatch := true, marker := false } ],
+    pods := [ oPod 0 0 .none .running true "T-1" false, oPod 1 1 .none .running true "T-1" true,
+              oPod 2 5 .none .running true "T-1" true ] }
+
+example : wfWorld exH exPre = true := by decide +kernel
+example : extraB exH exPre = true := by decide +kernel
+example : preNB exH exPre = true := by decide +kernel
+example : (prepW exH (settle exPre)).collisionCount = some 2 := by decide +kernel
+
+private def lmH : Hashing := { nameOf := fun _ c => "n" ++ toString c, hashNumOf := fun _ _ => some 7 }
+private def lmWorld : SyncIn :=
+  { setName := "web", paused := false, selectorOk := true,
+    view := { replicas := some 0, slots := [], parallel := true, strat := .rolling, ru := some (some 0), deleting := false,
+              generation := 1, stCurrentReplicas := 0 },
+    stored := { replicas := 0, ready := 0, current := 0, updated := 0, currentRev := "n0", updateRev := "n0", observedGen := 1 },
+    collisionCount := some 0, historyLimit := some 10, template := "T",
+    fresh := { gone := false, uidOk := true, deleting := false },
+    store := [{ name := "n0", number := 1, ctime := 0, data := "T", hashNum := some 5, owner := .self, selMatch := true, marker := false }],
+    pods := [] }
+
+/-- **a hash label that does not match keeps the controller busy for ever**: a listed revision sits on the first probe
+    name and records the template, under a hash label (5) other than the one computed now (7). `EqualRevision` does not find
+    it, `createControllerRevision` runs into it (AlreadyExists), reads it back, finds the same data and uses it — in every
+    sync: the world is inside `wfWorld`, the sync is successful but not silent (one `create:rev` call), writes no status,
+    leaves the store as it was and touches no pod — so every later round does the same and the run never goes quiet
+    (`#eval`: the monitor `C02converges` is false on it). `hashOkB` excludes it; with the real hash the label is determined
+    by the name. -/
+theorem label_mismatch_never_quiet :
+    wfWorld lmH lmWorld = true ∧ hashOkB lmH lmWorld = false ∧
+    (syncF lmH (settle lmWorld) []).log =
+      ["list:revs", "list:revs", "list:revs", "list:revs", "create:rev:n0", "get:rev:n0"] ∧
+    (syncF lmH (settle lmWorld) []).outcome = .ok ∧ (syncF lmH (settle lmWorld) []).status = none ∧
+    (syncF lmH (settle lmWorld) []).store = lmWorld.store ∧ (syncF lmH (settle lmWorld) []).acts = [] ∧
+    lmWorld.pods = [] := by
+  refine ⟨by decide +kernel, by decide +kernel, by decide +kernel, by decide +kernel, by decide +kernel, by decide +kernel,
+    by decide +kernel, rfl⟩
+
+private def ntWorld : SyncIn :=
+  { lmWorld with
+    stored := { replicas := 0, ready := 0, current := 0, updated := 0, currentRev := "b", updateRev := "b", observedGen := 1 },
+    store := [{ name := "a", number := 1, ctime := 0, data := "T", hashNum := none, owner := .self, selMatch := true, marker := false },
+              { name := "b", number := 2, ctime := 0, data := "T", hashNum := some 5, owner := .self, selMatch := true, marker := false }] }
+
+/-- **`EqualRevision` is not transitive** (an unparsable hash label is a wildcard): revision `a` (label unparsable) equals
+    the fresh revision (label 7) and equals the newest revision `b` (label 5), which does not equal the fresh one; the
+    controller uses `b` as the update revision and is quiet — silent successful syncs, the monitor is satisfied — in a state
+    where `status.updateRevision` names a revision that is not `EqualRevision` to the template's: not the `Final` of this
+    file (which asks the newest revision to equal the fresh one). `labelsOkB` excludes it. -/
+theorem equalRevision_not_transitive_quiet_not_final :
+    wfWorld lmH ntWorld = true ∧ labelsOkB lmH ntWorld = false ∧
+    (syncF lmH (settle ntWorld) []).log = ["list:revs", "list:revs", "list:revs", "list:revs"] ∧
+    (syncF lmH (settle ntWorld) []).outcome = .ok ∧ (syncF lmH (settle ntWorld) []).upd = "b" ∧
+    finalB lmH (settle ntWorld) = false := by
+  refine ⟨by decide +kernel, by decide +kernel, by decide +kernel, by decide +kernel, by decide +kernel, by decide +kernel⟩
 
 end Asts.C02
